@@ -254,7 +254,12 @@ impl EventGen for Container {
                 // no content at all, or only white space (e.g. a line break between the
                 // tags), is layout rather than text
                 if !is_xml_space(text) {
-                    el.set_attr("text", text);
+                    // (a reuse instance comes with its attributes evaluated: its text
+                    // content, which becomes one here, has not been)
+                    match el.evaluated {
+                        true => el.set_attr("text", &eval_attr(text, context)?),
+                        false => el.set_attr("text", text),
+                    }
                 }
                 if let Some((start, _end)) = self.0.event_range {
                     el.event_range = Some((start, start)); // emulate an Empty element
@@ -288,7 +293,10 @@ impl EventGen for Container {
                     }
                 }
                 if !is_xml_space(&text) {
-                    el.set_attr("text", &text);
+                    match el.evaluated {
+                        true => el.set_attr("text", &eval_attr(&text, context)?),
+                        false => el.set_attr("text", &text),
+                    }
                 }
                 let (shape_events, bbox) = generate_same_level(&el, context)?;
                 let (child_events, _) = process_events(children, context)?;
